@@ -481,13 +481,6 @@ my_strlcpy(char *dest, const char * src, size_t maxlen)
 	return QB_MIN(rc, maxlen-1);
 }
 
-static size_t
-my_strlcat(char *dest, const char * src, size_t maxlen)
-{
-	size_t rc = strlcat(dest, src, maxlen);
-	return QB_MIN(rc, maxlen-1);
-}
-
 size_t
 qb_vsnprintf_serialize(char *serialize, size_t max_len,
 		       const char *fmt, va_list ap)
@@ -784,7 +777,11 @@ qb_vsnprintf_deserialize_n(char *string, size_t str_len, const char *buf,
 		string[location] = '\0';
 		p = strchrnul((const char *)format, '%');
 		if (*p == '\0') {
-			return my_strlcat(string, format, str_len) + 1;
+			/* at our position, not behind the first NUL: a "%c"
+			 * argument may have been 0 */
+			return location +
+			    my_strlcpy(&string[location], format,
+				       str_len - location) + 1;
 		}
 		/* copy from current to the next %, leave room for the NUL */
 		len = QB_MIN(p - format, str_len - location - 1);
